@@ -571,4 +571,17 @@ BundleMatches(c, ts, b) ==
                                           rev |-> 0, revp |-> 1, trn |-> 0, trnp |-> 1, trnn |-> 0, pos |-> 0, posp |-> 1, bst |-> 0, to |-> 0]
     /\ {b.boards[i] : i \in DOMAIN b.boards} = BoardIds(c) /\ Len(b.boards) = Cardinality(BoardIds(c))
     /\ {b.trains[i] : i \in DOMAIN b.trains} = TrainIds(c) /\ Len(b.trains) = Cardinality(TrainIds(c))
+
+(* one single-entity getter result against the state (C10: every result is a state that existed) *)
+GetMatches(c, ts, k, id, res) ==
+    CASE k = "point" -> IF id \in Ids(c, "pb") \cup Ids(c, "pd") THEN res = AccQuery(c, ts, "pb", "pd", id) ELSE res.known = 0
+      [] k = "signal" -> IF id \in Ids(c, "sb") \cup Ids(c, "sd") THEN res = AccQuery(c, ts, "sb", "sd", id) ELSE res.known = 0
+      [] k = "per" -> IF id \in DOMAIN ts.per THEN res = Plus([known |-> 1], ts.per[id]) ELSE res.known = 0
+      [] k = "seg" -> IF id \in DOMAIN ts.seg THEN NormSeg(res) = Plus([known |-> 1], NormSeg(ts.seg[id])) ELSE res.known = 0
+      [] k = "rev" -> IF id \in DOMAIN ts.rev THEN res = Plus([known |-> 1], ts.rev[id]) ELSE res.known = 0
+      [] k = "trn" -> IF id \in DOMAIN ts.trn THEN res.known = 1 /\ TrainMatches(ts.trn[id], res) ELSE res.known = 0
+      [] k = "bst" -> IF id \in DOMAIN ts.bst THEN NormBst(res) = Plus([known |-> 1], NormBst(ts.bst[id])) ELSE res.known = 0
+      [] k = "to" -> IF id \in DOMAIN ts.to THEN res = [known |-> 1, cs |-> ts.to[id].cs] ELSE res.known = 0
+      [] k = "pos" -> IF id \in DOMAIN ts.trn THEN PositionMatches(c, ts, id, res) ELSE res.segs = <<>>
+      [] k = "conn" -> res.conn = (IF id \in DOMAIN ts.conn THEN ts.conn[id] ELSE 0)
 =============================================================================
